@@ -27,6 +27,8 @@ class Mod:
     def __init__(self, path, pymod):
         self.tree=ast.parse(open(path).read()); self.py=pymod
         self.funcs={}; self.classes={}
+        self.globs={k:getattr(pymod,k) for k in dir(pymod) if k.isupper() and not k.startswith("_") and isinstance(getattr(pymod,k),(str,int,list,tuple,dict))}
+        self.used_globs=[]; self.rx_consts={}
         for n in self.tree.body:
             if isinstance(n,ast.FunctionDef): self.funcs[n.name]=n
             if isinstance(n,ast.ClassDef):
@@ -102,6 +104,9 @@ class Fn:
         if isinstance(e,ast.Name):
             if e.id in self.vars: return "v_"+e.id
             if e.id in self.mod.funcs: return "(VFun (of_string %s))"%cq(e.id)
+            if e.id in self.mod.globs:
+                if e.id not in self.mod.used_globs: self.mod.used_globs.append(e.id)
+                return "g_"+e.id
             raise Unsupported("name "+e.id)
         if isinstance(e,ast.Attribute):
             # class constant?
@@ -120,6 +125,8 @@ class Fn:
             b=self.ex(e.comparators[0],binds); t=self.tmp()
             if type(op) in CMP: binds.append("%s <- %s %s %s ;; "%(t,CMP[type(op)],a,b)); return t
             if isinstance(op,ast.In): binds.append("%s <- py_in %s %s ;; "%(t,a,b)); return t
+            if isinstance(op,ast.NotIn):
+                t0=self.tmp(); binds.append("%s <- py_in %s %s ;; "%(t0,a,b)); binds.append("%s <- py_not %s ;; "%(t,t0)); return t
             raise Unsupported("cmp")
         if isinstance(e,ast.UnaryOp) and isinstance(e.op,ast.Not):
             a=self.ex(e.operand,binds); t=self.tmp(); binds.append("%s <- py_not %s ;; "%(t,a)); return t
@@ -140,13 +147,30 @@ class Fn:
         if isinstance(e,ast.Tuple): return "(VTuple [" + ";".join(self.ex(x,binds) for x in e.elts) + "])"
         if isinstance(e,ast.List): return "(VList [" + ";".join(self.ex(x,binds) for x in e.elts) + "])"
         if isinstance(e,ast.Dict): return "(VDict [" + ";".join("(%s,%s)"%(self.ex(k,binds),self.ex(v,binds)) for k,v in zip(e.keys,e.values)) + "])"
-        if isinstance(e,(ast.ListComp,ast.GeneratorExp)) and len(e.generators)==1 and not e.generators[0].ifs:
+        if isinstance(e,(ast.ListComp,ast.GeneratorExp)) and len(e.generators)==1 and not e.generators[0].ifs and isinstance(e.generators[0].target,ast.Name):
             g=e.generators[0]; it=self.ex(g.iter,binds); items=self.tmp(); binds.append("%s <- py_iter %s ;; "%(items,it))
-            if not isinstance(g.target,ast.Name): raise Unsupported("comp target")
             sub=[]; saved=self.vars; self.vars=self.vars+[g.target.id] if g.target.id not in self.vars else self.vars
             el=self.ex(e.elt,sub); self.vars=saved
             if any("v_self) := p_" in s for s in sub): raise Unsupported("effect in comprehension")
             t=self.tmp(); binds.append("%s <- py_for %s (fun x_ acc_ => let v_%s := x_ in %sNormal (acc_ ++ [%s])%%list) (@nil pyval) ;; "%(t,items,g.target.id,"".join(sub),el))
+            return "(VList %s)"%t
+        if isinstance(e,ast.JoinedStr):
+            acc=None
+            for p_ in e.values:
+                if isinstance(p_,ast.Constant): a=coq_val(p_.value)
+                elif isinstance(p_,ast.FormattedValue) and p_.conversion==-1 and p_.format_spec is None:
+                    a0=self.ex(p_.value,binds); a=self.tmp(); binds.append("%s <- py_format_str %s ;; "%(a,a0))
+                else: raise Unsupported("fstring")
+                if acc is None: acc=a
+                else:
+                    t=self.tmp(); binds.append("%s <- py_add %s %s ;; "%(t,acc,a)); acc=t
+            return acc if acc is not None else "(VStr [])"
+        if isinstance(e,(ast.ListComp,ast.GeneratorExp)) and len(e.generators)==1 and not e.generators[0].ifs and isinstance(e.generators[0].target,ast.Tuple) and len(e.generators[0].target.elts)==2:
+            g=e.generators[0]; it=self.ex(g.iter,binds); items=self.tmp(); binds.append("%s <- py_iter %s ;; "%(items,it))
+            n1,n2=g.target.elts[0].id,g.target.elts[1].id
+            sub=[]; saved=self.vars; self.vars=self.vars+[x for x in (n1,n2) if x not in self.vars]
+            el=self.ex(e.elt,sub); self.vars=saved
+            t=self.tmp(); binds.append("%s <- py_for %s (fun x_ acc_ => p_ <- unpack2 x_ ;; let '(v_%s, v_%s) := p_ in %sNormal (acc_ ++ [%s])%%list) (@nil pyval) ;; "%(t,items,n1,n2,"".join(sub),el))
             return "(VList %s)"%t
         if isinstance(e,ast.IfExp):
             c=self.ex(e.test,binds); sa=[]; a=self.ex(e.body,sa); sb=[]; b=self.ex(e.orelse,sb); t=self.tmp()
@@ -193,10 +217,16 @@ class Fn:
             if f.id=="range" and len(e.args)==1: return lib("py_range",A(0))
             if f.id=="any": return lib("py_any",A(0))
             if f.id=="bidict": return lib("new_bidict",A(0))
+            if f.id in ("ord","chr","enumerate","reversed","sum") and len(e.args)==1: return lib("py_"+f.id,A(0))
+            if f.id=="zip" and len(e.args)==2: return lib("py_zip",A(0),A(1))
+            if f.id=="ValueError": return A(0) if e.args else "(VStr [])"
         if isinstance(f,ast.Attribute):
             if isinstance(f.value,ast.Name) and f.value.id=="ipaddress":
                 if f.attr=="ip_network": return lib("ip_network",A(0))
                 if f.attr=="ip_address": return lib("ip_address",A(0))
+            if isinstance(f.value,ast.Name) and f.value.id=="re" and f.attr=="search" and isinstance(e.args[0],ast.Name) and e.args[0].id in self.mod.globs and isinstance(self.mod.globs[e.args[0].id],str):
+                nm=e.args[0].id; self.mod.rx_consts[nm]=self.mod.globs[nm]
+                return lib("re_search_ast","RX_"+nm,A(1))
             if f.attr=="format":
                 o=self.ex(f.value,binds); args="(VList [%s])"%";".join(self.ex(a,binds) for a in e.args)
                 kw="(VDict [%s])"%";".join("(S_ %s, %s)"%(cq(k.arg),self.ex(k.value,binds)) for k in e.keywords)
@@ -237,6 +267,23 @@ class Fn:
         if isinstance(s,ast.For) and not s.orelse and isinstance(s.target,ast.Name):
             b=[]; it=self.ex(s.iter,b)
             return (sp+"".join(b)+"items_ <- py_iter %s ;; e_ <~ py_for items_ (fun x_ %s => let v_%s := x_ in \n%s) %s ;; let %s := e_ in\n"%(it,self.pat(),s.target.id,self.block(s.body,ind+1),self.env(),self.pat()))+self.block(rest,ind)
+        if isinstance(s,ast.For) and not s.orelse and isinstance(s.target,ast.Tuple) and len(s.target.elts)==2 and all(isinstance(x,ast.Name) for x in s.target.elts):
+            b=[]; it=self.ex(s.iter,b)
+            return (sp+"".join(b)+"items_ <- py_iter %s ;; e_ <~ py_for items_ (fun x_ %s => p_ <- unpack2 x_ ;; let '(v_%s, v_%s) := p_ in \n%s) %s ;; let %s := e_ in\n"%(it,self.pat(),s.target.elts[0].id,s.target.elts[1].id,self.block(s.body,ind+1),self.env(),self.pat()))+self.block(rest,ind)
+        if isinstance(s,ast.While) and not s.orelse:
+            b=[]; c=self.ex(s.test,b)
+            if any("v_self) := p_" in x for x in b): raise Unsupported("effect in loop condition")
+            return (sp+"e_ <~ py_while fuel (fun %s => %sNormal (truthy %s)) (fun %s =>\n%s) %s ;; let %s := e_ in\n"%(self.pat(),"".join(b),c,self.pat(),self.block(s.body,ind+1),self.env(),self.pat()))+self.block(rest,ind)
+        if isinstance(s,ast.AugAssign) and isinstance(s.target,ast.Name) and type(s.op) in BIN:
+            b=[]; a=self.ex(s.value,b); t=self.tmp()
+            return sp+"".join(b)+"%s <- %s v_%s %s ;; let v_%s := %s in\n"%(t,BIN[type(s.op)],s.target.id,a,s.target.id,t)+self.block(rest,ind)
+        if isinstance(s,ast.Raise) and isinstance(s.exc,ast.Call) and isinstance(s.exc.func,ast.Name) and s.exc.func.id=="ValueError":
+            b=[]; a=self.ex(s.exc,b); return sp+"".join(b)+"Exc (ValueError (match %s with VStr m => m | _ => [] end))"%a
+        if isinstance(s,ast.Expr) and isinstance(s.value,ast.Call) and isinstance(s.value.func,ast.Attribute) and s.value.func.attr in ("append","insert") and isinstance(s.value.func.value,ast.Name) and s.value.func.value.id in self.vars:
+            v=s.value.func.value.id; b=[]; args=[self.ex(a,b) for a in s.value.args]; t=self.tmp()
+            op="py_list_append v_%s %s"%(v,args[0]) if s.value.func.attr=="append" and len(args)==1 else ("py_list_insert v_%s %s %s"%(v,args[0],args[1]) if len(args)==2 else None)
+            if op is None: raise Unsupported("list method arity")
+            return sp+"".join(b)+"%s <- %s ;; let v_%s := %s in\n"%(t,op,v,t)+self.block(rest,ind)
         if isinstance(s,ast.Expr) and isinstance(s.value,ast.Call):
             c=s.value; f=c.func
             if isinstance(f,ast.Attribute) and f.attr=="extend" and isinstance(f.value,ast.Name) and f.value.id in self.vars:
@@ -288,6 +335,15 @@ def translate_module(path, pymod, wanted=None):
         order.append(k)
     for k in trs: visit(k)
     done=[]
+    hdr_extra=[]
+    for g in mod.used_globs: hdr_extra.append("Definition g_%s : pyval := %s."%(g,coq_val(mod.globs[g])))
+    if mod.rx_consts:
+        import rxgen
+        E=rxgen.Emitter(); rx=[]
+        for nm,pat in mod.rx_consts.items():
+            t,_,_=E.pattern(pat,0); rx.append("Definition RX_%s : re := %s."%(nm,t))
+        hdr_extra += ["Require Import Rx PyRe.", E.set_defs()] + rx
+    out[out.index("")+0:out.index("")+0]=hdr_extra
     for k,txt in stubs.items():
         out.append(txt); out.append("")
     for k in order:
